@@ -6,7 +6,7 @@ cd /verif/seeded || exit 2
 mkdir -p /tmp/seedrun; cp /verif/known_findings.json /tmp/seedrun/
 NAMES="${@:-$(ls)}"
 for n in $NAMES; do
-  prop=$(python3 -c "import json;print(json.load(open('/verif/seeded/$n/meta.json'))['breaks_property'])")
+  prop=$(python3 -c "import json;m=json.load(open('/verif/seeded/$n/meta.json'));print(m.get('check_property',m['breaks_property']))")
   out=$(/verif/tools/try_seed.sh /verif/seeded/$n/patch.diff $prop 2>&1)
   if echo "$out" | grep -q "^VIOLATION property=$prop"; then
     cls=$(echo "$out" | grep -oE "violation class=[^ ]+" | sort -u | tr '\n' ' ')
